@@ -153,6 +153,9 @@ def run_append_tier(case):
     if snap["name"] != A_s["name"]:
         raise Violation("tier-name", what)
     cl = []
+    if A_s["entries"] and B_s["entries"] and A_s["type"] == "point" and A_s["entries"][-1][0] == A_s["maxT"] and B_s["entries"][0][0] == 0 \
+            and A_s["entries"][-1][-1] == B_s["entries"][0][-1]:
+        cl.append("equal_points_meet_at_joint")
     if not B_s["entries"]:
         cl.append("empty_B")
     if not A_s["entries"]:
@@ -283,6 +286,11 @@ def append_tier_cases(draw):
     B = draw(mk("B"))
     if draw(st.integers(0, 9)) > 0 and A["type"] != B["type"]:
         B = draw(gen.interval_tier(style=style, name="B") if A["type"] == "interval" else gen.point_tier(style=style, name="B"))
+    if A["type"] == B["type"] == "point" and draw(st.integers(0, 3)) == 0 and B["minT"] == 0:
+        # a point on A's end and a point on B's start with the same label: two equal entries meet at the joint
+        lab = draw(st.sampled_from(["a", "b", ""]))
+        A["entries"] = [e for e in A["entries"] if e[0] != A["maxT"]] + [[A["maxT"], lab]]
+        B["entries"] = [[0.0, lab]] + [e for e in B["entries"] if e[0] != 0.0]
     return {"A": A, "B": B}
 
 
